@@ -45,7 +45,15 @@ pub fn run(stim: &Value, rec: &Rec) {
     let keys: Vec<Value> = r.keys().map(|k| match k { KeyRef::Ascii(k) => json!({"nb": bytes_json(k.as_str().as_bytes()), "bin": false}), KeyRef::Binary(k) => json!({"nb": bytes_json(k.as_str().as_bytes()), "bin": true}) }).collect();
     let (mut va, mut vb) = (0u64, 0u64);
     for v in r.values() { match v { ValueRef::Ascii(_) => va += 1, ValueRef::Binary(_) => vb += 1 } }
-    rec.ev(json!({"e":"recv","per":per,"iter":iter,"keys":keys,"values_ascii":va,"values_bin":vb,"len":r.len() as u64}));
+    // the same names looked up in other letter cases (header names are case-insensitive: "X-Data-Bin" names the entry "x-data-bin")
+    let variants: Vec<Value> = names.iter().flat_map(|n| {
+        let up = n.to_ascii_uppercase();
+        let cap: String = { let mut prev = '-'; n.chars().map(|c| { let o = if prev == '-' { c.to_ascii_uppercase() } else { c }; prev = c; o }).collect() };
+        vec![(n.clone(), up), (n.clone(), cap)]
+    }).filter(|(n, v)| n != v).map(|(n, v)| json!({"nb": bytes_json(n.as_bytes()), "asked": bytes_json(v.as_bytes()),
+        "get": r.get(v.as_str()).is_some(), "get_bin": r.get_bin(v.as_str()).is_some(),
+        "all": r.get_all(v.as_str()).iter().count() as u64, "all_bin": r.get_all_bin(v.as_str()).iter().count() as u64})).collect();
+    rec.ev(json!({"e":"recv","per":per,"iter":iter,"keys":keys,"values_ascii":va,"values_bin":vb,"len":r.len() as u64,"variants":variants}));
 }
 
 pub fn gen(seed: u64, tier: &str) -> Vec<Value> {
